@@ -13,6 +13,7 @@ import dawgie.fe.basis as basis
 import dawgie.security as security
 
 from vp import ob, rt
+from vp.shims.modstate import Snapshot
 
 PROPERTY = 'C19'
 
@@ -90,6 +91,7 @@ def _routes():
     return sorted(out, key=lambda d: d._DynamicContent__uri)
 
 
+_SEC = Snapshot(security)
 ROUTES = _routes()
 PRIV_FN = [api.cmd_run, api.cmd_reset, api.cmd_snapshot, api.REV_SUBMIT, app.schedule_run, app.schedule_reset, app.snapshot, app.start_submit]
 PRIV = sorted(d._DynamicContent__uri for d in ROUTES if any(d._DynamicContent__fnc is f for f in PRIV_FN))
@@ -100,6 +102,7 @@ URI = {d._DynamicContent__uri: d for d in ROUTES}
 def sanction_body(endpoint):
     """anonymous caller, client certificates configured"""
     with rt.island():
+        _SEC.restore()
         del security._certs[:]
         security._certs.append(object())
     ok = security.is_sanctioned(endpoint, None)
@@ -168,6 +171,7 @@ def render_body(e, m, c, o, clients):
     if None in (ei, mi, ci, oi):
         return
     with rt.island():
+        _SEC.restore()
         d = ROUTES[ei]
         uri = d._DynamicContent__uri
         rt.note(f'{METHODS[mi][0]} {uri} cert={ci} override={OVERRIDES[oi]} clients={bool(clients)}')
@@ -199,6 +203,59 @@ def render_body(e, m, c, o, clients):
                    f'{METHODS[mi][0]} {uri}: handler ran={bool(calls)} granted={granted} method allowed={allowed_method}')
 
 
+def render_hist_body(e, h1, m2, o2):
+    """two requests to the same endpoint in one process: a certified client is served
+    first (default hook or a granting hook), then a stranger asks with the default, a
+    denying or a failing hook: the second answer depends on the second request only"""
+    ei = h1i = mi = oi = None
+    for j in range(len(ROUTES)):
+        if e == j:
+            ei = j
+            break
+    for j in range(2):
+        if h1 == j:
+            h1i = j
+            break
+    for j in range(4):
+        if m2 == j:
+            mi = j
+            break
+    for j in range(4):
+        if o2 == j:
+            oi = j
+            break
+    if None in (ei, h1i, mi, oi):
+        return
+    with rt.island():
+        _SEC.restore()
+        d = ROUTES[ei]
+        uri = d._DynamicContent__uri
+        hook2 = [OVERRIDES[0], OVERRIDES[2], OVERRIDES[3], OVERRIDES[4]][oi]
+        rt.note(f'{uri}: certified request (hook {OVERRIDES[h1i]}), then anonymous {METHODS[mi][0]} (hook {hook2})')
+        del security._certs[:]
+        security._certs.append(object())
+        calls = []
+        real = d._DynamicContent__fnc
+        d._DynamicContent__fnc = lambda **kw: calls.append(kw) or b'{}'
+        try:
+            dawgie.context.sanction_override = OVERRIDES[h1i]
+            first_method = 'render_POST' if basis.HttpMethod.POST in d._DynamicContent__methods else 'render_GET'
+            getattr(d, first_method)(_Req(object()))
+            rt.require(len(calls) == 1, 'c19:certified-denied', f'certified client could not use {uri}')
+            del calls[:]
+            dawgie.context.sanction_override = hook2
+            getattr(d, METHODS[mi][0])(_Req(None))
+        finally:
+            d._DynamicContent__fnc = real
+            dawgie.context.sanction_override = OVERRIDES[0]
+        allowed_method = METHODS[mi][1] in d._DynamicContent__methods
+        granted = oi == 0 and security.is_sanctioned(uri, None)
+        rt.nontrivial()
+        rt.require(not (uri in PRIV and calls), 'c19:anonymous-privileged', f'anonymous {METHODS[mi][0]} {uri} ran the handler after a certified client had used it')
+        rt.require(bool(calls) == (granted and allowed_method), 'c19:handler-gate',
+                   f'anonymous {METHODS[mi][0]} {uri} after a certified request: handler ran={bool(calls)} granted={granted} method allowed={allowed_method}')
+
+
 INFO = {
     'explanation': 'Static files: the real fe._static runs on a real directory tree (two roots, sibling sharing a root\'s name prefix, files '
     'outside, file/dir/index.html symlinks pointing out, a symlink between the roots); the request path is a vector of z3 selectors over 15 '
@@ -207,7 +264,7 @@ INFO = {
     'length bound) with client certificates configured and no certificate presented - a granted endpoint is never one whose registered '
     'handler is run/reset/submit/snapshot (taken from the live route tree) and accepts GET only; DynamicContent.render_* runs for every '
     'registered endpoint x method x certificate x access-hook override (default, grant, deny, raising, unresolvable) and the handler may '
-    'run only when access was granted and the method is mapped.',
+    'run only when access was granted and the method is mapped; two-request histories (a certified client first, then a stranger with a default, denying, failing or unresolvable hook) must judge the second request on its own. Module-level containers of dawgie.security are restored before every path.',
     'rule': 'static: one case = one request path, non-trivial = a file was served; access: one case = one path through is_sanctioned / one (endpoint, method, cert, hook) tuple',
     'functions': ['fe._static', 'security.is_sanctioned', 'security.sanctioned', 'security._lookup', 'fe.basis.DynamicContent.__render/render_GET/POST/PUT/DELETE'],
     'bounds': {
@@ -247,4 +304,7 @@ def obligations(tier):
                                [f'0 <= e < {nr} and 0 <= m < 4 and 0 <= c < 3'], f"{{'e': e, 'm': m, 'c': c, 'o': {o}, 'clients': {cl}}}", timeout=900))
     out.append(ob.make('render', 'render', 'vp.harness.c19:render_body', 'e: int, m: int, c: int',
                        [f'0 <= e < {nr} and 0 <= m < 4 and 0 <= c < 3'], "{'e': e, 'm': m, 'c': c, 'o': 3, 'clients': True}", timeout=300, twin=True))
+    for h1 in range(2):
+        out.append(ob.make(f'render-history-hook{h1}', 'render', 'vp.harness.c19:render_hist_body', 'e: int, m2: int, o2: int',
+                           [f'0 <= e < {nr} and 0 <= m2 < 4 and 0 <= o2 < 4'], f"{{'e': e, 'h1': {h1}, 'm2': m2, 'o2': o2}}", timeout=900))
     return out
